@@ -18,10 +18,12 @@ function, so any function may serve as a counter-example).
   of 6, 13.
 * `dn_sampled_slot_free`: in the honest accepted assignment the sampled slot itself can be
   overwritten by any value (instance of `C06.accDn_ignores`).
-* `d1_first_row_capacity_free` (finding F5c): D = 1; the capacity cells of table row 0 are not
-  constrained (`Chain.first`): accepted with capacity (7, 0) instead of (0, 0), challenge 13
-  instead of 6. This falsifies the hypothesis `cap0 = 0` of `challenges_bound_partial`.
-* `challenges_bound_false`: the negation of the full statement.
+* `d1_first_row_capacity_rejected` (finding F5c, **repaired** by fixes/C06-1.diff; kept as a
+  regression record): D = 1, capacity cells (7, 0) of table row 0 instead of (0, 0). Before the
+  repair this assignment was accepted with challenge 13 instead of 6 (no constraint addressed
+  row 0); with the start-of-chain constraint on row 0 (`firstRowOk`) it is rejected, and the
+  honest cells (0, 0) are accepted and bound (`d1_honest_first_row`).
+* `challenges_bound_false`: the negation of the full statement (D ≥ 2).
 -/
 import Mathlib.Data.ZMod.Basic
 import Mathlib.Algebra.Field.ZMod
@@ -116,15 +118,27 @@ theorem dn_sampled_slot_free (v : List Q) :
 def rows1 : List Row := (emit cfg1 [.obs, .smp]).1
 def smp1 : List Sym := (emit cfg1 [.obs, .smp]).2
 
-/-- input (5, 0 | 7+1, 0) → output (0, 13, 5, 8): exposed `v0 = 0`, `v1 = 13` -/
+/-- input (5, 0 | 7+1, 0) → output (0, 13, 5, 8): exposed `v0 = 0`, `v1 = 13` — the pre-fix
+forgery (every exposed output is `π₂` of the forged row). -/
 def w1 : Slot → Q
   | .o _ => 5
   | .v 1 => 13
   | _ => 0
 
-theorem d1_first_row_capacity_free :
-    accD1 cfg1 π₂ w1 (.first [7, 0]) rows1 = true
-    ∧ smp1.map (ev1 w1) = [13] ∧ native cfg1 π₂ (fun i => w1 (.o i)) [.obs, .smp] = [6] := by
+/-- honest: input (5, 0 | 0+1, 0) → output (0, 6, 5, 1) -/
+def w1h : Slot → Q
+  | .o _ => 5
+  | .v 1 => 6
+  | _ => 0
+
+/-- Regression record of F5c: the forged first-row capacity is no longer accepted. -/
+theorem d1_first_row_capacity_rejected :
+    accD1 cfg1 π₂ w1 (.first [7, 0]) rows1 = false := by
+  decide
+
+theorem d1_honest_first_row :
+    accD1 cfg1 π₂ w1h (.first [0, 0]) rows1 = true
+    ∧ smp1.map (ev1 w1h) = native cfg1 π₂ (fun i => w1h (.o i)) [.obs, .smp] := by
   decide
 
 /-- The full statement of C06 over the model (every configuration, permutation function,
@@ -141,22 +155,11 @@ theorem challenges_bound_false :
   rw [h1, h2] at h
   exact absurd h (by decide)
 
-/-- … and so is the D = 1 statement without the first-row hypothesis. -/
-theorem challenges_bound_d1_needs_first_row :
-    ¬ (∀ (c : Cfg) (_ : c.d = 1) (π : List Q → List Q) (h : List HOp) (w : Slot → Q) (cap0 : List Q),
-        accD1 c π w (.first cap0) (emit c h).1 = true →
-        (emit c h).2.map (ev1 w) = native c π (fun i => w (.o i)) h) := by
-  intro hall
-  have h := hall cfg1 rfl π₂ [.obs, .smp] w1 [7, 0] d1_first_row_capacity_free.1
-  have h1 : (emit cfg1 [.obs, .smp]).2.map (ev1 w1) = [13] := d1_first_row_capacity_free.2.1
-  rw [h1, d1_first_row_capacity_free.2.2] at h
-  exact absurd h (by decide)
-
 end P3R.Witness.C06
 
 #print axioms P3R.Witness.C06.dn_capacity_output_unbound
 #print axioms P3R.Witness.C06.dn_recompose_row_unbound
 #print axioms P3R.Witness.C06.dn_sampled_slot_free
-#print axioms P3R.Witness.C06.d1_first_row_capacity_free
+#print axioms P3R.Witness.C06.d1_first_row_capacity_rejected
+#print axioms P3R.Witness.C06.d1_honest_first_row
 #print axioms P3R.Witness.C06.challenges_bound_false
-#print axioms P3R.Witness.C06.challenges_bound_d1_needs_first_row
